@@ -7,6 +7,7 @@ does not depend on the means (the intercept is discarded, self.mean is never rea
 Not decided: monotonicity / invariance corollaries; the LGANM causal link (a theorem on top of C01).
 """
 from .common import *
+from .common import decide_formula
 from .. import mnf as MN
 from ..mnf import MNF, rB, rV, rA, rinv, add, mul, rscale, strip_wrappers
 
@@ -28,6 +29,32 @@ def cmp_rule(rep, rule, w, got, ref, what, extra=None):
     decide_formula(rep, rule, w, got, ref, what, make_point)
 
 
+def split_phis(t, limit=3):
+    """case split on the phi terms inside t -> [(assumptions, term without those phis)]"""
+    phis = []
+    for x in walk(t):
+        if isinstance(x, tuple) and x and x[0] == "phi" and x not in phis:
+            phis.append(x)
+    phis = [x for x in phis if not any(x is not y and mentions(y, x) for y in phis)][:limit]   # outermost first
+    if not phis:
+        return [((), t)]
+    out = []
+    x = phis[0]
+    from ..sym import subst
+    for pol, br in ((True, x[2]), (False, x[3])):
+        for assume, t2 in split_phis(subst(t, {x: br}), limit - 1 if limit > 1 else 0) if limit > 1 else [((), subst(t, {x: br}))]:
+            out.append((((x[1], pol),) + tuple(assume), t2))
+    return out
+
+
+def mentions_outside_len(t, idx):
+    if t == ("ext", "len", (idx,), ()):
+        return False
+    if t == idx:
+        return True
+    return isinstance(t, tuple) and any(mentions_outside_len(c, idx) for c in t if isinstance(c, tuple))
+
+
 def run(prog, rep, tier):
     inl = lambda g: g.qname in (U + "matrix_block",)
     f = need(prog, ND + "regress")
@@ -43,12 +70,26 @@ def run(prog, rep, tier):
         ok = st.base == zeros and M.idx_key(st.idx) == PXs and st.aug is None
         rep.check("WRITESET.coefs", ok, fwhere(f, st.node), "coefficients = zeros(p) written only at the regressors S",
                   "coefficient vector is not `zeros(p)` written at S only (base %s, index %s)" % (fmt(st.base), fmt(st.idx)))
-        try:
-            got = M.nf(st.value)
-            ref = mul(rinv(rB(C, PXs, PXs)), rB(C, SY, PXs))
-            cmp_rule(rep, "FORMULA.coefs", fwhere(f, st.node, construct="coefs[S]"), got, ref, "coefs[S]")
-        except Inconclusive as e:
-            rep.unk("FORMULA.coefs", fwhere(f, st.node), "left the matrix fragment: %s" % e.why)
+        ref = mul(rinv(rB(C, PXs, PXs)), rB(C, SY, PXs))
+        for assume, term in split_phis(st.value):
+            full = any(strip_wrappers(c) in (("cmp", "==", ("ext", "len", (PXs,), ()), ("self", "p")), ("cmp", "==", ("self", "p"), ("ext", "len", (PXs,), ()))) and pol
+                       for c, pol in assume)
+            content = any(mentions_outside_len(strip_wrappers(c), PXs) for c, pol in assume)
+            label = "coefs[S]" + (" when " + " and ".join(("" if pol else "not ") + fmt(strip_wrappers(c))[:40] for c, pol in assume) if assume else "")
+            try:
+                got = M.nf(term)
+            except Inconclusive as e:
+                rep.unk("FORMULA.coefs", fwhere(f, st.node, construct=label), "left the matrix fragment: %s" % e.why)
+                continue
+            if MN.key(got) != MN.key(ref) and content:
+                rep.unk("FORMULA.coefs", fwhere(f, st.node, construct=label), "special case whose condition inspects the regressor list itself: not decided")
+                continue
+
+            def make_point(rnd, full=full):
+                from .. import mnf_eval as ME
+                p = 5
+                return ME.Point(p, {C: ME.rand_spd(rnd, p), MU: ME.rand_vec(rnd, p)}, {Py: 2, PXs: [3, 0, 4, 1, 2] if full else [4, 1]})
+            decide_formula(rep, "FORMULA.coefs", fwhere(f, st.node, construct=label), got, ref, label, make_point)
     from .common import hidden_state
     hidden_state(rep, "HISTORY.regress", fwhere(f), [r_.value for r_ in S.select("return", qname=f.qname)] + [s_.value for s_ in stores], {"mean", "covariance", "p"})
     rets = S.select("return", qname=f.qname)
